@@ -15,7 +15,7 @@ THEOREMS = [P + t for t in (
     "gibbs_backend_zero_coupling", "gibbs_zero_coupling_orient", "gibbs_zero_coupling",
     "gibbs_trace_one", "gibbs_hermitian", "gibbs_normalised_hermitian",
     "compute_fresh", "compute_idempotent", "compute_repeat",
-    "coeff_is_cell", "coeff_sum_tiling", "infl_formulas_are_model", "gibbs_ops_symmetric",
+    "coeff_is_cell", "coeff_sum_tiling", "guarded_term_inactive", "infl_formulas_are_model", "gibbs_ops_symmetric",
     "total_imaginary_time", "source_orientation",
     "eta_fallback_accurate", "corr_fallback_accurate", "matsubara_eta_integrand")]
 TOL = 1e-8
